@@ -26,7 +26,8 @@ for c in $(git cherry main "ws-$ID" | awk '$1=="+"{print $2}'); do
 done
 cd /verif
 git merge --no-edit "ws-$ID" >/dev/null 2>&1 || true
-git rm -q --cached lean/Driver/Main.lean 2>/dev/null || true
+git rm -q --cached lean/Driver/Main.lean lean/SuccinctlyVerif.lean 2>/dev/null || true
+for g in lean/Driver/Main.lean lean/SuccinctlyVerif.lean; do git status --short | grep -q "^[UAD][UAD] $g" && { git rm -q --cached "$g" 2>/dev/null; rm -f "$g"; }; done || true
 if git status --short | grep -q '^UU known_findings.json'; then python3 tools/merge_kf.py; git add known_findings.json; fi
 if git status --short | grep -q '^U\|^AA\|^DU\|^UD'; then git status --short | grep '^U\|^AA\|^DU\|^UD'; echo "UNRESOLVED"; exit 1; fi
 python3 tools/gen_main.py
